@@ -41,6 +41,10 @@ def _ident_job(k):
                 bad.append((name, i, val, refv))
         cl += ob["sCL"][i].item() * S / stot
         cd += ob["sCD"][i].item() * S / stot
+    # aircraft lift and drag: q S_ref_total (CL, CD)
+    for name, val, refv in (("total_L", ob["tL"].item(), q * stot * ob["CL"].item()), ("total_D", ob["tD"].item(), q * stot * ob["CD"].item())):
+        if not (abs(val - refv) <= 1e-10 * max(abs(refv), 1e-6 * q * stot)):
+            bad.append((name, -1, val, refv))
     for name, val, refv in (("CL", ob["CL"].item(), cl), ("CD", ob["CD"].item(), cd)):
         if not (abs(val - refv) <= 1e-10 * max(abs(refv), 1e-3)):
             bad.append((name, -1, val, refv))
